@@ -2,6 +2,7 @@ package eng
 
 import (
 	"fmt"
+	"os"
 	"go/token"
 	"sort"
 	"strings"
@@ -23,6 +24,12 @@ type LockSpec struct {
 	Pkg     string            // package whose functions are analysed (module-relative)
 	Exempt  map[string]string // function name (FuncName form) -> reason (constructors, not-yet-shared values)
 	ReadsOK map[string]string // field -> reason: unlocked reads tolerated (e.g. immutable after construction)
+	// WriteCalls: a call to one of these callees with an argument or receiver loaded from a guarded
+	// field is a write access to that field (mutating method on the guarded object).
+	WriteCalls []string
+	// Scope, when set, limits the functions whose own accesses are reported (summaries are still
+	// computed package-wide, and callers of an in-scope function that needs the lock are always checked).
+	Scope func(fn *ssa.Function) bool
 	// MethodsOn: also treat calls of any method on a value loaded from these
 	// fields as a read access (default true for all Fields).
 }
@@ -40,6 +47,7 @@ type fnLockInfo struct {
 	calls    []ssa.CallInstruction // static calls to same-package functions
 	closures map[*ssa.Function]int // state at creation of nested closures (non-go, non-defer)
 	goOrDef  map[*ssa.Function]bool
+	goFn     map[*ssa.Function]bool // subset of goOrDef: started with `go`
 }
 
 func mutexOp(in ssa.Instruction, mutex string) (op string, ok bool) {
@@ -73,7 +81,7 @@ func mutexOp(in ssa.Instruction, mutex string) (op string, ok bool) {
 
 // analyseLocks runs the forward must-hold dataflow on fn with the given entry state.
 func analyseLocks(fn *ssa.Function, spec *LockSpec, entry int) *fnLockInfo {
-	info := &fnLockInfo{fn: fn, state: map[ssa.Instruction]int{}, closures: map[*ssa.Function]int{}, goOrDef: map[*ssa.Function]bool{}}
+	info := &fnLockInfo{fn: fn, state: map[ssa.Instruction]int{}, closures: map[*ssa.Function]int{}, goOrDef: map[*ssa.Function]bool{}, goFn: map[*ssa.Function]bool{}}
 	if fn.Blocks == nil {
 		return info
 	}
@@ -191,6 +199,7 @@ func analyseLocks(fn *ssa.Function, spec *LockSpec, entry int) *fnLockInfo {
 					case *ssa.Go:
 						if y.Call.Value == x {
 							isGoDef = true
+							info.goFn[cf] = true
 						}
 					case *ssa.Defer:
 						if y.Call.Value == x {
@@ -202,6 +211,27 @@ func analyseLocks(fn *ssa.Function, spec *LockSpec, entry int) *fnLockInfo {
 					info.goOrDef[cf] = true
 				} else {
 					info.closures[cf] = info.state[ins]
+				}
+			}
+			if c, ok := ins.(ssa.CallInstruction); ok && len(spec.WriteCalls) > 0 && CalleeIs(c, spec.WriteCalls...) {
+				ops := append([]ssa.Value{}, c.Common().Args...)
+				if c.Common().IsInvoke() {
+					ops = append(ops, c.Common().Value)
+				}
+				for _, op := range ops {
+					f := ""
+					Walk(op, 3, func(x ssa.Value) bool {
+						if u, isU := x.(*ssa.UnOp); isU && u.Op == token.MUL {
+							if _, isFA := u.X.(*ssa.FieldAddr); isFA && guarded[FieldSpec(u.X)] {
+								f = FieldSpec(u.X)
+							}
+						}
+						return true
+					})
+					if f != "" {
+						info.accesses = append(info.accesses, lockAccess{ins, f, true})
+						break
+					}
 				}
 			}
 			if c, ok := ins.(ssa.CallInstruction); ok {
@@ -296,6 +326,9 @@ func (c *Ctx) CheckLocks(rule string, spec *LockSpec) {
 		}
 		// propagate closure needs to parents
 		for fn := range infos {
+			if p := fn.Parent(); p != nil && infos[p] != nil && infos[p].goFn[fn] {
+				continue // a goroutine does not run under its creator's lock: reported at the goroutine itself
+			}
 			if p := fn.Parent(); p != nil && need[fn] > need[p] {
 				if _, ex := spec.Exempt[FuncName(p)]; !ex {
 					need[p] = need[fn]
@@ -318,6 +351,39 @@ func (c *Ctx) CheckLocks(rule string, spec *LockSpec) {
 			}
 		}
 	}
+	// functions (in or out of scope) whose need stems from an in-scope function's accesses
+	needFromScope := map[*ssa.Function]bool{}
+	if spec.Scope != nil {
+		for fn := range infos {
+			root := fn
+			for root.Parent() != nil {
+				root = root.Parent()
+			}
+			if need[fn] > 0 && spec.Scope(root) {
+				needFromScope[root] = true
+				needFromScope[fn] = true
+			}
+		}
+		for changed := true; changed; {
+			changed = false
+			for fn, info := range infos {
+				if need[fn] == 0 || needFromScope[fn] {
+					continue
+				}
+				for _, call := range info.calls {
+					if cal := StaticFn(call); cal != nil && needFromScope[cal] && need[cal] > 0 && info.state[call.(ssa.Instruction)] < need[cal] {
+						needFromScope[fn] = true
+						changed = true
+					}
+				}
+			}
+		}
+	}
+	if os.Getenv("WEEDLINT_DEBUG_LOCK") != "" {
+		for fn := range needFromScope {
+			fmt.Printf("DEBUG needFromScope %s need=%d why=%s\n", FuncName(fn), need[fn], needWhy[fn])
+		}
+	}
 	// obligations
 	var names []*ssa.Function
 	for fn := range infos {
@@ -335,15 +401,22 @@ func (c *Ctx) CheckLocks(rule string, spec *LockSpec) {
 		}
 		nAcc += len(info.accesses)
 		if fn.Parent() != nil {
-			continue // reported through the enclosing function
+			if pi := infos[fn.Parent()]; pi != nil && pi.goFn[fn] && need[fn] > 0 && (spec.Scope == nil || spec.Scope(fn)) {
+				c.Ob(rule, FuncName(fn)+" goroutine-needs-"+spec.Mutex, false, fn.Pos(), fmt.Sprintf("the goroutine performs %s without %s held (its creator's lock does not cover it)", needWhy[fn], spec.Mutex))
+			}
+			continue // otherwise reported through the enclosing function
 		}
+		inScope := spec.Scope == nil || spec.Scope(fn)
 		if need[fn] == 0 {
-			if len(info.accesses) > 0 {
+			if len(info.accesses) > 0 && inScope {
 				c.Ob(rule, FuncName(fn)+" accesses-under-"+spec.Mutex, true, fn.Pos(), fmt.Sprintf("%d guarded access(es) with the lock held", len(info.accesses)))
 			}
 			continue
 		}
 		// function needs the lock from its callers
+		if !inScope && !needFromScope[fn] {
+			continue
+		}
 		exportedEntry := fn.Object() != nil && fn.Object().Exported()
 		cs := callers[fn]
 		if len(cs) == 0 {
